@@ -504,6 +504,7 @@ pub fn variable_graph_cases(rng: &mut Rng, n: usize) -> Vec<GDoc> {
         let edges: u32 = if k == 2 { (i / 3) as u32 % 16 } else { (rng.next() & 0x1FF) as u32 };
         let mut defs = vec![];
         let nops = rng.range(1, 3);
+        let same_names = if rng.pct(25) { rng.range(1, 2) } else { 0 };
         for o in 0..nops {
             let mut vars = vec![];
             for v in 0..k {
@@ -529,7 +530,10 @@ pub fn variable_graph_cases(rng: &mut Rng, n: usize) -> Vec<GDoc> {
             if rng.pct(25) {
                 sels.push(usage(&format!("v{}", rng.below(k)), false));
             }
-            defs.push(GDef::Op { kind: OpKind::Query, name: Some(format!("Q{}", o)), vars, dirs: vec![], sels });
+            // a quarter of the documents give all operations the same name, or no name at all
+            // (rejected by the operation-name rules, but the variable rules work per operation)
+            let name = match same_names { 1 => Some("Q".to_string()), 2 => None, _ => Some(format!("Q{}", o)) };
+            defs.push(GDef::Op { kind: OpKind::Query, name, vars, dirs: vec![], sels });
         }
         for f in 0..k {
             let mut sels = vec![usage(&format!("v{}", f), rng.pct(25))];
